@@ -4,7 +4,7 @@ Programs: ALL well-typed expression trees up to a depth bound over the Geometric
 {+, -, scalar*, tensor product, transpose(all perms), contract(all pairs), multicontract(all disjoint pair sets,
 both orders, both orientations), levi_civita_contract(all index tuples), norm, convolve_with(filter of every type)}
 generated breadth-first over the typed signature (k,p), result order <= bound. Oracle for each term and EVERY g in
-B_d:  eval(term)(g.leaves) == g._{declared (k,p)} eval(term)(leaves), integer leaves, exact == (1e-5 through norm);
+B_d:  eval(term)(g.leaves) == g._{declared (k,p)} eval(term)(leaves), integer leaves, exact == (1e-4 of the result's magnitude through norm);
 declared type == type computed by the algebra rules; an exception on a well-typed term is a violation.
 """
 import itertools as it
@@ -25,7 +25,7 @@ RULE = (
     "zero and some g with det=-1 moves it; distinct = distinct term (counted)."
 )
 ASSUMPTIONS = [
-    "L1 (mild): leaves are fixed small-integer images (two per type); the covariance defect of a term is polynomial (or norm-of-polynomial) in the leaves, so a violation somewhere is a violation almost everywhere; exact arithmetic except through norm (1e-5)",
+    "L1 (mild): leaves are fixed small-integer images (two per type); the covariance defect of a term is polynomial (or norm-of-polynomial) in the leaves, so a violation somewhere is a violation almost everywhere; exact arithmetic except through norm (1e-4 relative to the magnitude)",
     "L2: d in {2,3}; leaf and result order <= 3 (d=2) / 2 (d=3); depth <= 2 quick (d=3: 1), 3 thorough (d=3: 2)",
     "typing rules used to generate terms: (k,p)+(k,p); (ka+kb, pa+pb) for products/convolutions; contract k-2; Levi-Civita k-D+2, p+1; norm (0,0)",
 ]
@@ -293,7 +293,9 @@ def run_case(case, seed):
                 evals += 1
                 exp = ref_action(base, r0.parity, g, D)  # transform with the DECLARED parity
                 got = np.asarray(rg.data)
-                ok = got.shape == exp.shape and (np.allclose(got, exp, rtol=1e-5, atol=1e-5) if tol else np.array_equal(got, exp))
+                # through `norm` values are irrational: compare relative to the magnitude of the result (float32
+                # accumulation through nested convolutions reaches ~1e-6 of the scale; real defects are O(1))
+                ok = got.shape == exp.shape and ((float(np.max(np.abs(got - exp))) <= 1e-4 * (1.0 + float(np.max(np.abs(exp)))) if exp.size else True) if tol else np.array_equal(got, exp))
                 if not ok and not failed:
                     kind = "reflection" if G.det(g) < 0 else "rotation"
                     bad(f"C05/covariance/{_topop(term)}/{kind}", f"term does not transform with its declared type {(r0.k, r0.parity)} under g={g.tolist()} (flags {flags})", term)
@@ -306,7 +308,7 @@ def run_case(case, seed):
 
 
 CLAIM = {
-    "text": "All well-typed expression trees up to depth 2 (quick, d=2; depth 1 in d=3) / depth 3 (thorough; 2 in d=3) over the full operator alphabet are enumerated breadth first over the typed signature and evaluated on the real GeometricImage API for every g in B_d and two flag settings; declared type vs algebra rules and covariance with the declared type are compared exactly (1e-5 through norm). Contraction order/orientation and product commutativity as term identities.",
+    "text": "All well-typed expression trees up to depth 2 (quick, d=2; depth 1 in d=3) / depth 3 (thorough; 2 in d=3) over the full operator alphabet are enumerated breadth first over the typed signature and evaluated on the real GeometricImage API for every g in B_d and two flag settings; declared type vs algebra rules and covariance with the declared type are compared exactly (1e-4 relative through norm). Contraction order/orientation and product commutativity as term identities.",
     "note": "L1: fixed integer leaves (two per type). Trusted: the typing rules written from the property statement; vlib/ref/action.py.",
     "technique": "breadth-first enumeration of all well-typed programs up to a size bound x all group elements, exact covariance oracle",
 }
